@@ -89,14 +89,16 @@ func Run(r *core.Report, env *build.Env) {
 		{Func: "VerifC02Binary", Bound: "26 binary operator phrases x 18 x 18 operand types"},
 		{Func: "VerifC02Unary", Bound: "27 unary/cast/type-test phrases x 18 types x 3 uses"},
 		{Func: "VerifC02Compound", Bound: "20 compound/element/field assignments x 18 x 18 types"},
-		{Func: "VerifC02Loops", Bound: "9 loop/condition forms x 18 x 18 types"},
-		{Func: "VerifC02Literals", Bound: "6 literal/constant forms x 18 x 18 types"},
+		{Func: "VerifC02Loops", Bound: "17 loop/condition forms (bounds, steps, counts and conditions that are variables or expressions needing several basic blocks) x 18 x 18 types"},
+		{Func: "VerifC02Literals", Bound: "8 literal/constant forms (incl. Kombination literals passing fields whose defaults have another numeric type) x 18 x 18 types"},
 		{Func: "VerifC02Scopes", Bound: "5 shadowing/nesting forms x 18 types, -O 0 and -O 2"},
-		{Func: "VerifC02Modules", Bound: "two modules (library with and without a generic function): 12 uses of public declarations of the imported module x 2 positions, -O 0 and -O 2"},
+		{Func: "VerifC02Functions", Bound: "8 forms with user-defined operators, generic functions (also with list and Referenz parameters), nested returns, forward declarations x 18 x 18 types"},
+		{Func: "VerifC02Modules", Bound: "two modules (library with and without a generic function): 17 uses of public declarations of the imported module (incl. a generic Kombination instantiated with types only the importing module knows) x 2 positions, -O 0 and -O 2"},
 	}
 	if r.Tier == "thorough" {
 		hs = append(hs,
 			goh.Harness{Func: "VerifC02Tokens3", Bound: "initialiser of 3 tokens of symbolic kind", Opts: gose.Options{Deadline: 60 * time.Minute}},
+			goh.Harness{Func: "VerifC02FunctionsO2", Bound: "the Functions family with the -O 2 annotator", Opts: gose.Options{Deadline: 60 * time.Minute}},
 			goh.Harness{Func: "VerifC02Ternary", Bound: "5 ternary phrases x 18^3 operand types", Opts: gose.Options{Deadline: 60 * time.Minute}},
 			goh.Harness{Func: "VerifC02TokensStmt3", Bound: "statement of 3 tokens of symbolic kind", Opts: gose.Options{Deadline: 60 * time.Minute}},
 			goh.Harness{Func: "VerifC02TokensCond2", Bound: "Wahrheitswert initialiser of 2 symbolic tokens after a nested block", Opts: gose.Options{Deadline: 60 * time.Minute}},
@@ -108,6 +110,7 @@ func Run(r *core.Report, env *build.Env) {
 		h.Key = cellKey(h.Func)
 		h.Confirm = confirm
 		h.ReplayEnv = env0
+		h.Opts.MaxSteps = 60_000_000 // frontend + generator + printing of a module with several Kombinationen
 		if h.Opts.Deadline == 0 {
 			h.Opts.Deadline = 20 * time.Minute
 		}
